@@ -11,7 +11,11 @@
 //	    and reaches the parsers behind the record layer (keyed.go, tlsx/keyed.go);
 //	(3) raw peers: exhaustive short byte streams, and every record-boundary prefix
 //	    of a genuine transcript followed by each insert of the menu and EOF;
-//	(4) single special configurations (SSLv3 requested).
+//	(4) single special configurations (SSLv3 requested);
+//	(5) failures of the endpoint's OWN transport (local.go): its Write fails from
+//	    every write call of the fault-free run onward, and from the moment it has
+//	    consumed a peer message that makes it write (KeyUpdate reply, alerts), with
+//	    several error kinds, both roles, and the application going on afterwards.
 //
 // Oracle: no panic in any call, and every call returns once the transport is
 // closed (blocking is resolved structurally by the transport's stall detection;
@@ -297,6 +301,7 @@ type job struct {
 	kcf     *kconf
 	k       *kcase
 	special string
+	lf      *lfJob // local-transport families (local.go)
 }
 
 type rawJob struct {
@@ -308,6 +313,8 @@ type rawJob struct {
 
 func (j job) describe() map[string]any {
 	switch {
+	case j.lf != nil:
+		return map[string]any{"local": j.lf}
 	case j.special != "":
 		return map[string]any{"special": j.special}
 	case j.kcf != nil:
@@ -643,6 +650,16 @@ func rawPrefixJobs(cf *conf, base outcome, lazy func(func() job)) {
 
 // ---------------------------------------------------------------- job list (deterministic; every process rebuilds it)
 
+// trimLateCloseNotify: the client closes first; whether the server's answering close_notify still passes the proxy
+// before the client's transport is closed is a race nobody reads the result of. The record is left out of the
+// baseline view, so that the menus (and with them the case indexes) are the same in every process.
+func trimLateCloseNotify(seen [2][]tlsx.Seen) [2][]tlsx.Seen {
+	if s := seen[tlsx.S2C]; len(s) > 0 && s[len(s)-1].Type == 21 {
+		seen[tlsx.S2C] = s[:len(s)-1]
+	}
+	return seen
+}
+
 type meta struct {
 	Faults    map[string]any      `json:"faults"`
 	KeyedBase map[string][]string `json:"keyed_base"`
@@ -652,6 +669,7 @@ type meta struct {
 	NPrefix   int                 `json:"n_prefix"`
 	NKeyed    int                 `json:"n_keyed"`
 	NSpecial  int                 `json:"n_special"`
+	Local     lfMeta              `json:"local"`
 	Total     int                 `json:"total"`
 	Baselines int64               `json:"baselines"`
 	Broken    string              `json:"broken,omitempty"`
@@ -713,6 +731,7 @@ func buildJobs(thorough bool, keep func(i int) bool) ([]job, meta) {
 		kcf := &kcfs[ki]
 		b1 := runKeyed(*kcf, nil)
 		b2 := runKeyed(*kcf, nil)
+		b1.seen, b2.seen = trimLateCloseNotify(b1.seen), trimLateCloseNotify(b2.seen)
 		m.Baselines += 2
 		for _, p := range b1.panics {
 			m.BaselineViol = append(m.BaselineViol, violRec{"panic: " + p, job{kcf: kcf}.describe()})
@@ -763,6 +782,8 @@ func buildJobs(thorough bool, keep func(i int) bool) ([]job, meta) {
 		emit(job{special: s})
 	}
 	m.NSpecial = n - n0
+	// local-transport families: appended last, so the indexes of the older families do not move
+	lfBuild(thorough, cfs, kcfs, lazy, &m, broken)
 	m.Total = n
 	return jobs, m
 }
@@ -781,14 +802,15 @@ type result struct {
 	Viol       []violRec           `json:"viol"`
 	Incomplete []string            `json:"incomplete"`
 	Samples    []any               `json:"samples"`
-	Reached    map[string][2]int64 `json:"reached"` // config | class -> [cases delivered, cases whose edited record authenticated]
+	Reached    map[string][2]int64 `json:"reached"`  // config | class -> [cases delivered, cases whose edited record authenticated]
+	Counters   map[string]int64    `json:"counters"` // local-transport families: non-vacuity counters
 	Suspects   int                 `json:"suspects"`
 	Stopped    bool                `json:"stopped"`
 	Done       bool                `json:"done"`
 }
 
 func newResult() *result {
-	return &result{Hist: map[string]int64{}, Reached: map[string][2]int64{}}
+	return &result{Hist: map[string]int64{}, Reached: map[string][2]int64{}, Counters: map[string]int64{}}
 }
 
 func (r *result) merge(o *result) {
@@ -805,6 +827,9 @@ func (r *result) merge(o *result) {
 		c[0] += v[0]
 		c[1] += v[1]
 		r.Reached[k] = c
+	}
+	for k, v := range o.Counters {
+		r.Counters[k] += v
 	}
 	r.Suspects += o.Suspects
 	r.Stopped = r.Stopped || o.Stopped
@@ -879,7 +904,13 @@ func (r *result) rerunSuspects(suspects []job) {
 		r.Suspects += len(suspects) - 4
 		suspects = suspects[:4]
 	}
+	confirmed := false
 	for _, j := range suspects {
+		if confirmed {
+			// every verdict of this path carries the same signature: one confirmed witness is enough (3 x 60 s each)
+			r.Incomplete = append(r.Incomplete, fmt.Sprintf("case %d exceeded 20 s and was not re-run after another case had been confirmed as a hang", j.idx))
+			continue
+		}
 		hung := 0
 		for k := 0; k < 3; k++ {
 			if _, ok := exec(j, 60*time.Second); !ok {
@@ -892,6 +923,7 @@ func (r *result) rerunSuspects(suspects []job) {
 			w := j.describe()
 			w["goroutines"] = firstZcryptoFrames(string(buf))
 			r.Viol = append(r.Viol, violRec{"handshake/data call did not return after the transport was closed", w})
+			confirmed = true
 		} else {
 			r.Incomplete = append(r.Incomplete, fmt.Sprintf("case %d exceeded 20 s under load but completed when re-run (not a verdict)", j.idx))
 		}
@@ -922,11 +954,14 @@ func jobFromWitness(raw json.RawMessage) (job, error) {
 		KConf    string      `json:"keyed_config"`
 		Keyed    *kcase      `json:"keyed"`
 		Special  string      `json:"special"`
+		Local    *lfJob      `json:"local"`
 	}
 	if err := json.Unmarshal(raw, &w); err != nil {
 		return job{}, err
 	}
 	switch {
+	case w.Local != nil:
+		return job{lf: w.Local}, nil
 	case w.Special != "":
 		return job{special: w.Special}, nil
 	case w.KConf != "":
